@@ -168,11 +168,22 @@ func logV3JSON(name string, pub any) []byte {
 
 // newSynth creates an empty log or mirror directory with a valid checkpoint for the given size.
 func (h *harness) newSynth(flavour string, size int64, ckpt string) *synth {
+	return h.newSynthIn(flavour, size, ckpt, "", synthName)
+}
+
+// newSynthIn: the same, at a given place: for a log, at is the log directory; for a mirror, at is
+// the witness directory and the mirror directory is at/mirror/<origin hash of name>/ (several
+// mirrors may share one witness directory). at == "": a fresh directory.
+func (h *harness) newSynthIn(flavour string, size int64, ckpt string, at string, name string) *synth {
 	s := &synth{h: h, flavour: flavour, size: size, sizeStr: strconv.FormatInt(size, 10)}
 	var hash tlog.Hash
 	h.rng.Read(hash[:])
 	if flavour == "log" {
-		s.dir = h.newDir("slog")
+		if at == "" {
+			at = h.newDir("slog")
+		}
+		os.MkdirAll(at, 0o755)
+		s.dir = at
 		s.runDir = s.dir
 		s.put("log.v3.json", logV3JSON(synthName, h.key.Public()))
 		signed, err := ctlog.VerifGcSignTreeHead(h.synthCfg(), size, hash, time.Now().UnixMilli())
@@ -201,12 +212,15 @@ func (h *harness) newSynth(flavour string, size int64, ckpt string) *synth {
 		}
 		return s
 	}
-	s.runDir = h.newDir("switness")
-	oh := witness.OriginHash(synthName)
+	if at == "" {
+		at = h.newDir("switness")
+	}
+	s.runDir = at
+	oh := witness.OriginHash(name)
 	s.dir = filepath.Join(s.runDir, "mirror", oh)
 	os.MkdirAll(s.dir, 0o755)
-	text := fmt.Sprintf("%s\n%d\n%s\n", synthName, size, base64.StdEncoding.EncodeToString(hash[:]))
-	sig := "\n— " + synthName + " " + base64.StdEncoding.EncodeToString(append([]byte{1, 2, 3, 4}, hash[:]...)) + "\n"
+	text := fmt.Sprintf("%s\n%d\n%s\n", name, size, base64.StdEncoding.EncodeToString(hash[:]))
+	sig := "\n— " + name + " " + base64.StdEncoding.EncodeToString(append([]byte{1, 2, 3, 4}, hash[:]...)) + "\n"
 	switch ckpt {
 	case "missing": // "mirror checkpoint does not exist yet, skipping"
 		s.sizeStr = "skip"
@@ -214,7 +228,7 @@ func (h *harness) newSynth(flavour string, size int64, ckpt string) *synth {
 		s.put("checkpoint", []byte("no separator here\n"))
 		s.sizeStr = "-"
 	case "badsig": // origin that does not hash to the directory name
-		s.put("checkpoint", []byte("other.example/log"+text[len(synthName):]+sig))
+		s.put("checkpoint", []byte("other.example/log"+text[len(name):]+sig))
 		s.sizeStr = "-"
 	default:
 		s.put("checkpoint", []byte(text+sig))
